@@ -546,6 +546,38 @@ def run(chk: Check) -> None:
     rule_m3_cut(chk)
     rule_m4(chk)
     rule_m5(chk, mach)
+    # the client's identity is the certificate whose key was proven in the handshake:
+    # OpenSSL hands that out through get_peer_certificate() only; the chain APIs list what
+    # the peer *sent along* (on a server the chain excludes the peer's own certificate)
+    chk.rule("M3p", "the presented certificate is taken from get_peer_certificate() only: no value of get_peer_cert_chain() / get_verified_chain() is returned or indexed as the peer's certificate")
+    n_api = 0
+    okp = True
+    for fi in chk.proj.functions.values():
+        if not fi.module.name.startswith(("security", "server")):
+            continue
+        for c in [x for x in ast.walk(fi.node) if isinstance(x, ast.Call)]:
+            mc = method_call(c)
+            if not mc:
+                continue
+            if mc[1] == "get_peer_certificate":
+                n_api += 1
+            if mc[1] in ("get_peer_cert_chain", "get_verified_chain"):
+                # used as a certificate: indexed, or flows into a return
+                used = False
+                for x in ast.walk(fi.node):
+                    if isinstance(x, ast.Subscript) and (x.value is c or (isinstance(x.value, ast.Name) and any(isinstance(st, ast.Assign) and st.value is c and any(isinstance(t, ast.Name) and t.id == x.value.id for t in st.targets) for st in ast.walk(fi.node)))):
+                        used = True
+                    if isinstance(x, ast.Return) and x.value is not None and any(y is c for y in ast.walk(x.value)):
+                        used = True
+                if used:
+                    okp = False
+                    chk.finding(
+                        "M3p", fi.key, f"identity-from-chain:{norm(c)[:40]}",
+                        f"`{norm(c)}` is used as the peer's certificate: the chain holds what the client sent along, not the certificate whose private key the handshake proved - a client can append an authorised user's public certificate and be admitted under that fingerprint",
+                        fi.loc(c),
+                    )
+    chk.require("M3p", "security.pyopenssl_tls", "get_peer_certificate() call sites", n_api, 1, "the PyOpenSSL backend no longer reads the peer certificate with get_peer_certificate()")
+    chk.ob("M3p", "peer identity comes from get_peer_certificate() only", okp, evals=n_api)
     from .c03 import fingerprint_definition
 
     chk.rule("M3f", "the fingerprint the chain is consulted with is a pure function of the presented certificate: sha256 over its DER encoding, no state between calls (= C03.T4)")
